@@ -17,6 +17,10 @@ type lockState struct {
 	readers map[int]int // thread id -> read-lock count
 	pendW   int         // writers waiting (writer preference)
 	name    string
+	// sequential mode: a spawned goroutine (the flusher) found the lock taken
+	// by the foreground call in progress and waits for it; like a real blocked
+	// writer it gets the lock as soon as the foreground releases it
+	pendingSpawn bool
 }
 
 type lockEvent struct {
@@ -82,6 +86,31 @@ func init() {
 			if e.sched != nil {
 				return e.sched.lockOp(i, l, write, acquire, where)
 			}
+			if acquire {
+				// held by another thread in a conflicting mode: only a spawned
+				// goroutine can find that (it runs inside a foreground call that
+				// gave it time); it waits
+				others := 0
+				for id, c := range l.readers {
+					if id != t {
+						others += c
+					}
+				}
+				if (l.writer >= 0 && l.writer != t) || (write && others > 0) {
+					if !e.inSpawn {
+						unsupportedf("foreground call blocked on %s held by a spawned goroutine", l.name)
+					}
+					l.pendingSpawn = true
+					panic(stopSpawn{})
+				}
+			}
+			defer func() {
+				// the foreground released the lock a spawned goroutine waits for
+				if !acquire && !e.inSpawn && l.pendingSpawn && l.writer < 0 && l.totalReaders() == 0 {
+					l.pendingSpawn = false
+					i.runSpawned(16)
+				}
+			}()
 			switch {
 			case acquire && write:
 				if l.writer == t || l.readers[t] > 0 {
@@ -112,6 +141,34 @@ func init() {
 			return nil
 		}
 	}
+	// TryLock / TryRLock never block: false when the lock is not available
+	tryOp := func(write bool) intrinsicFn {
+		return func(i *interpreter, fr *frame, args []value) value {
+			p := args[0].(*value)
+			if p == nil {
+				panic("runtime error: invalid memory address or nil pointer dereference")
+			}
+			e := i.env
+			l := e.lock(p)
+			e.lockOps++
+			t := e.curThread
+			if e.sched != nil {
+				return e.sched.tryLockOp(i, l, write)
+			}
+			if l.writer >= 0 || (write && l.totalReaders() > 0) {
+				return false
+			}
+			if write {
+				l.writer = t
+			} else {
+				l.readers[t]++
+			}
+			return true
+		}
+	}
+	reg("(*sync.RWMutex).TryLock", tryOp(true))
+	reg("(*sync.RWMutex).TryRLock", tryOp(false))
+	reg("(*sync.Mutex).TryLock", tryOp(true))
 	reg("(*sync.RWMutex).Lock", lockOp(true, true))
 	reg("(*sync.RWMutex).Unlock", lockOp(true, false))
 	reg("(*sync.RWMutex).RLock", lockOp(false, true))
